@@ -1256,6 +1256,8 @@ class Evaluator:
                 return self.arith(op, l, r, e)
             return T.call(e['callee'], l, r)
         if e.get('lty') in ('f64', 'f32'):
+            if op in ('Lt', 'Le', 'Gt', 'Ge', 'Eq', 'Ne'):
+                return ('fcmp', op, T.unroot(l), T.unroot(r))     # a condition, kept exactly as written (no float reasoning)
             return T.root(('fop', op, T.unroot(l), T.unroot(r)))
         self.site(op, e, l, r, body)
         return self.arith(op, l, r, e)
